@@ -15,13 +15,28 @@
 //
 // steps: results of successive Step calls of the mechanism in use: m<pl> (more, with
 // response), d<pl> (done), a (sasl.ErrAuthn), e (other error); past the end = e.
-// pl (payload): '-' empty, 'eq' a single '=', 'sh' two base64 characters, 'bad'
-// undecodable, v<hex> the base64 encoding of these bytes.
+// pl (payload): '-' empty, 'eq' a single '=', 'sh' two base64 characters ('sh1', 'sh3': one,
+// three), 'bad' undecodable ('bad5': a stray character after a complete quantum, 'badp':
+// padding in the middle), v<hex> the base64 encoding of these bytes.
 //
 // peer (client role): c<pl> challenge, s<pl> success, f failure, o unknown element in
 // the SASL namespace, n <success/> in another namespace, w white space; the script
 // ends with EOF.  peer (server role): A<mech>/<pl> auth, R<pl> response, B abort,
 // F failure, O unknown SASL element, N <auth/> in another namespace, W white space.
+//
+// Round C:
+//
+//	srvp <pol> <smechs> <steps> <perm> <peer>   like srv; steps may hold pe / ps / pv (the
+//	    Step panics with an error / a string / another value) and perm may be panic-e /
+//	    panic-s / panic-v (the application's permission callback panics).  pol: three
+//	    characters 0/1 - which of these panics the implementation was seen to recover and turn
+//	    into an error return (probed once per run; sasl.go recovers none: 000).  A panic that
+//	    travels up through ReceiveSession is the error class "panic".
+//	clip <pol> <cmechs> <adv> <steps> <peer>    the same on the initiating side
+//	srvc <looks> <k> <smechs> <steps> <perm> <peer>   like srv with a negotiation context that
+//	    is done from the k-th test of the receiving loop on (0: before the first element is
+//	    handled; k >= 1: it becomes done while the k-th Step runs).  looks: whether the
+//	    implementation was seen to look at the context in that loop (probed; sasl.go: 0).
 //
 // sent: what the library wrote: auth/<mech>/<pl>, resp/<pl>, chal/<pl>, succ/<pl>,
 // fail/<condition>.  calls: the challenges handed to Step after Start (pl syntax).
@@ -66,8 +81,16 @@ func (p payload) wire() string {
 		return "="
 	case "sh":
 		return "AA"
+	case "sh1":
+		return "A"
+	case "sh3":
+		return "AAA"
 	case "bad":
 		return "!!!!"
+	case "bad5": // one character after a complete quantum
+		return "AAAAA"
+	case "badp": // padding in the middle
+		return "AA=A"
 	}
 	return ""
 }
@@ -81,7 +104,7 @@ func (p payload) field() string {
 
 func parsePayload(s string) (payload, error) {
 	switch s {
-	case "-", "eq", "sh", "bad":
+	case "-", "eq", "sh", "bad", "sh1", "sh3", "bad5", "badp":
 		return payload{kind: s}, nil
 	}
 	if strings.HasPrefix(s, "v") {
@@ -172,7 +195,7 @@ func (s step) field() string {
 }
 
 func parseStep(f string) (step, error) {
-	if f == "a" || f == "e" {
+	if f == "a" || f == "e" || f == "pe" || f == "ps" || f == "pv" {
 		return step{kind: f}, nil
 	}
 	if len(f) >= 2 && (f[0] == 'm' || f[0] == 'd') {
@@ -203,6 +226,62 @@ type trace struct {
 	done      bool
 	perms     []string
 	lastErr   error
+	// a Step (or the permission callback below it) panicked with a value injected by the case
+	panicked bool
+	// onStep, when set, is called when the n-th Step (1-based) of the negotiation starts
+	onStep func(n int)
+	nSteps int
+}
+
+// the three classes of panic values: an error, a string, anything else
+var errInjected = errors.New("c03: injected panic")
+
+type injectedVal struct{ n int }
+
+func panicValue(kind string) interface{} {
+	switch kind {
+	case "pe":
+		return errInjected
+	case "ps":
+		return "c03: injected panic"
+	}
+	return injectedVal{42}
+}
+
+func panicKind(v interface{}) string {
+	switch v.(type) {
+	case error:
+		return "pe"
+	case string:
+		return "ps"
+	}
+	return "pv"
+}
+
+func (t *trace) stepStarts() {
+	t.nSteps++
+	if t.onStep != nil {
+		t.onStep(t.nSteps)
+	}
+}
+
+// recordPanic records a Step that did not return.
+func (t *trace) recordPanic(name string, v interface{}) {
+	if !t.usedSet {
+		t.used, t.usedSet = name, true
+	}
+	if t.errored {
+		t.afterErr = true
+	}
+	if t.done {
+		t.afterDone = true
+	}
+	if e, ok := v.(error); ok {
+		t.lastErr = e
+	}
+	t.results = append(t.results, step{kind: panicKind(v)})
+	t.errored = true
+	t.panicked = true
 }
 
 func (t *trace) record(name string, more bool, resp []byte, err error) {
@@ -251,7 +330,12 @@ func scripted(name string, script []step, t *trace) sasl.Mechanism {
 		}
 		var more bool
 		var err error
+		t.stepStarts()
 		switch s.kind {
+		case "pe", "ps", "pv":
+			v := panicValue(s.kind)
+			t.recordPanic(name, v)
+			panic(v)
 		case "m":
 			more = true
 		case "a":
@@ -277,12 +361,26 @@ func wrapped(m sasl.Mechanism, t *trace) sasl.Mechanism {
 	return sasl.Mechanism{
 		Name: m.Name,
 		Start: func(n *sasl.Negotiator) (bool, []byte, interface{}, error) {
+			t.stepStarts()
+			defer func() {
+				if v := recover(); v != nil {
+					t.recordPanic(m.Name, v)
+					panic(v)
+				}
+			}()
 			more, resp, c, err := m.Start(n)
 			t.record(m.Name, more, resp, err)
 			return more, resp, c, err
 		},
 		Next: func(n *sasl.Negotiator, challenge []byte, data interface{}) (bool, []byte, interface{}, error) {
 			t.calls = append(t.calls, bytesPayload(challenge))
+			t.stepStarts()
+			defer func() {
+				if v := recover(); v != nil {
+					t.recordPanic(m.Name, v)
+					panic(v)
+				}
+			}()
 			more, resp, c, err := m.Next(n, challenge, data)
 			t.record(m.Name, more, resp, err)
 			return more, resp, c, err
@@ -374,6 +472,10 @@ func errClass(res negResult, t *trace) string {
 		return "notcalled"
 	}
 	err := res.err
+	if res.panicV != "" && t.panicked {
+		// the injected panic travelled up through Negotiate and the session constructor
+		return "panic"
+	}
 	switch {
 	case err == nil:
 		return "nil"
@@ -389,6 +491,10 @@ func errClass(res negResult, t *trace) string {
 	c := nc.ErrClass(err)
 	if strings.HasPrefix(c, "sasl:") {
 		return "saslfailure"
+	}
+	if t.panicked && strings.HasPrefix(c, "other:") {
+		// the implementation recovered the injected panic and made an error of its own of it
+		return "mecherr"
 	}
 	return c
 }
@@ -413,6 +519,8 @@ type cliCase struct {
 	env    bool
 	wfail  int
 	cancel int
+	// pol != "": operation "clip" (steps may panic; pol = the probed recovery policy)
+	pol string
 }
 
 func cliEventXML(ev string) (string, error) {
@@ -471,6 +579,9 @@ func (c cliCase) line() string {
 			k = fmt.Sprint(c.cancel)
 		}
 		return fmt.Sprintf("clie %s %s %s %s %s %s", b, k, encNames(c.mechs), encNames(c.adv), fieldSteps(c.steps), common.Join(c.peer, ","))
+	}
+	if c.pol != "" {
+		return fmt.Sprintf("clip %s %s %s %s %s", c.pol, encNames(c.mechs), encNames(c.adv), fieldSteps(c.steps), common.Join(c.peer, ","))
 	}
 	op := "cli"
 	if c.allScripted {
@@ -587,7 +698,8 @@ func runClient(r *common.Run, c cliCase, class string) error {
 		used = encName(t.used)
 	}
 	obs := fmt.Sprintf("%s %s %s %s %s", common.B(authn), errc, used, common.Join(sent, ","), common.Join(t.calls, ","))
-	if res.panicV != "" {
+	injected := res.panicV != "" && t.panicked
+	if res.panicV != "" && !injected {
 		obs = "PANIC"
 	}
 	line := c.line()
@@ -612,7 +724,7 @@ func runClient(r *common.Run, c cliCase, class string) error {
 	if n := len(t.results); n > 0 {
 		lastStep = t.results[n-1].kind
 	}
-	if res.panicV != "" {
+	if res.panicV != "" && !injected {
 		r.Fail("client-no-panic", "panic", lines, res.panicV)
 		return nil
 	}
@@ -620,6 +732,9 @@ func runClient(r *common.Run, c cliCase, class string) error {
 		r.Fail("client-output-wellformed", "xml", lines, perr.Error())
 	}
 	sessAuthn := res.state&xmpp.Authn != 0
+	if t.panicked && (authn || sessAuthn) {
+		r.Fail("client-authn-step-panicked", "step="+lastStep, lines, "the session is authenticated although a Step of the mechanism panicked")
+	}
 	if authn != sessAuthn {
 		r.Fail("client-state-follows-mask", fmt.Sprintf("mask=%v;state=%v", authn, sessAuthn), lines, "the session's Authn bit differs from the mask returned by Negotiate")
 	}
@@ -641,7 +756,7 @@ func runClient(r *common.Run, c cliCase, class string) error {
 			}
 		}
 		for i := 0; i < consumed; i++ {
-			if p := c.peer[i][1:]; (c.peer[i][0] == 'c' || c.peer[i][0] == 's') && (p == "bad" || p == "sh" || p == "eq") {
+			if p := c.peer[i][1:]; (c.peer[i][0] == 'c' || c.peer[i][0] == 's') && p != "-" && p[0] != 'v' {
 				r.Fail("client-authn-undecodable-payload", "payload="+p, lines, "authenticated although a payload was not valid base64")
 				break
 			}
@@ -742,11 +857,23 @@ type srvCase struct {
 	wfail int
 	// allScripted: every configured mechanism is scripted whatever its name (operation "srvs")
 	allScripted bool
+	// pol != "": operation "srvp" (steps / the permission callback may panic)
+	pol string
+	// ctxOn: operation "srvc": the negotiation context is done from the cancel-th loop test on
+	ctxOn  bool
+	cancel int
+	looks  bool
 }
 
 func (c srvCase) line() string {
 	if c.wfail > 0 {
 		return fmt.Sprintf("srvw %d %s %s %s %s", c.wfail-1, encNames(c.mechs), fieldSteps(c.steps), c.perm, common.Join(c.peer, ","))
+	}
+	if c.pol != "" {
+		return fmt.Sprintf("srvp %s %s %s %s %s", c.pol, encNames(c.mechs), fieldSteps(c.steps), c.perm, common.Join(c.peer, ","))
+	}
+	if c.ctxOn {
+		return fmt.Sprintf("srvc %s %d %s %s %s %s", common.B(c.looks), c.cancel, encNames(c.mechs), fieldSteps(c.steps), c.perm, common.Join(c.peer, ","))
 	}
 	op := "srv"
 	if c.allScripted {
@@ -799,6 +926,13 @@ func permFunc(spec string, t *trace) (func(*sasl.Negotiator) bool, error) {
 	var user, pass []byte
 	switch spec {
 	case "none", "any":
+	case "panic-e", "panic-s", "panic-v":
+		// the callback does not return a verdict: its user store is unreachable and it bails
+		// out by panicking
+		return func(n *sasl.Negotiator) bool {
+			n.Credentials()
+			panic(panicValue("p" + spec[len("panic-"):]))
+		}, nil
 	default:
 		i := strings.Index(spec, "/")
 		if i < 0 {
@@ -836,11 +970,20 @@ func runServer(r *common.Run, c srvCase, class string) error {
 	if err != nil {
 		return err
 	}
+	ctx, cancelCtx := context.WithCancel(context.Background())
+	defer cancelCtx()
+	if c.ctxOn && c.cancel >= 1 {
+		t.onStep = func(n int) {
+			if n == c.cancel {
+				cancelCtx()
+			}
+		}
+	}
 	chunks := []nc.Chunk{nc.S(nc.Header("jabber:client", "", "", "example.net"))}
 	restarted := func(w []byte) bool { return bytes.Count(w, []byte("<?xml")) > 1 }
 	var delivered []string
-	for _, ev := range c.peer {
-		ev := ev
+	for k, ev := range c.peer {
+		ev, k := ev, k
 		x, err := srvEventXML(ev)
 		if err != nil {
 			return err
@@ -850,6 +993,10 @@ func runServer(r *common.Run, c srvCase, class string) error {
 				return nil
 			}
 			delivered = append(delivered, ev)
+			if c.ctxOn && c.cancel == 0 && k == 0 {
+				// the first element is in flight: the context is done before the loop's first test
+				cancelCtx()
+			}
 			return []byte(x)
 		}})
 	}
@@ -864,7 +1011,7 @@ func runServer(r *common.Run, c srvCase, class string) error {
 		// writes 1 and 2 are the stream header and the features list
 		conn.FailWriteCall = 2 + c.wfail
 	}
-	res := negotiate(conn, true, xmpp.SASLServer(perm, mechs...))
+	res := negotiateCtx(ctx, conn, true, xmpp.SASLServer(perm, mechs...))
 
 	streams, perr := nc.ParseWritten(conn.Written())
 	var sent []string
@@ -898,7 +1045,8 @@ func runServer(r *common.Run, c srvCase, class string) error {
 	authn := res.called > 0 && res.mask&xmpp.Authn != 0
 	errc := errClass(res, &t)
 	obs := fmt.Sprintf("%s %s %s %s adv:%s", common.B(authn), errc, common.Join(sent, ","), common.Join(t.perms, ","), encNames(advertised))
-	if res.panicV != "" {
+	injected := res.panicV != "" && t.panicked
+	if res.panicV != "" && !injected {
 		obs = "PANIC"
 	}
 	line := c.line()
@@ -907,7 +1055,7 @@ func runServer(r *common.Run, c srvCase, class string) error {
 
 	// ---- property oracle ----
 	lines := []string{r.Prop + " " + line}
-	if res.panicV != "" {
+	if res.panicV != "" && !injected {
 		r.Fail("server-no-panic", "panic", lines, res.panicV)
 		return nil
 	}
@@ -946,6 +1094,10 @@ func runServer(r *common.Run, c srvCase, class string) error {
 	}
 	if t.afterErr {
 		r.Fail("server-no-step-after-error", "step-after-error", lines, "Step called on a mechanism that had returned an error")
+	}
+	if t.panicked && (authn || sessAuthn) {
+		r.Fail("server-authn-step-panicked", "step="+t.results[len(t.results)-1].kind, lines,
+			"authenticated although a Step of the mechanism (or the permission callback below it) panicked instead of completing")
 	}
 	if authn || sessAuthn {
 		// the last <auth/> consumed must name a configured mechanism and everything after it must be <response/>
@@ -1161,6 +1313,59 @@ func plainPayloads() []string {
 	}
 }
 
+// ---- what the implementation does where it is free (probed once per run) ----------------
+
+type policies struct {
+	srvPanic string // which panic values negotiateServer recovers: 3 x 0/1 (error, string, other)
+	cliPanic string // the same for negotiateClient
+	looks    bool   // negotiateServer was seen to give up with the context's error
+}
+
+const plainAccepted = "AHVzZXIAc2VjcmV0" // \x00user\x00secret
+
+// probe runs three tiny exchanges per role with a Step that panics and one with a context
+// that is done before the first element is handled, and notes what the implementation does
+// with them.  Nothing here is a verdict: every answer is allowed by the model
+// (C03_server_panic_policy, C03_server_ctx hold for all of them); the answers only select
+// which member of the model family the differential runs compare against.
+func probe() policies {
+	var p policies
+	bit := func(b bool) string {
+		if b {
+			return "1"
+		}
+		return "0"
+	}
+	for _, k := range []string{"e", "s", "v"} {
+		// receiving side: PLAIN, the application's callback panics
+		var t trace
+		perm, _ := permFunc("panic-"+k, &t)
+		conn := nc.NewConn(nc.S(nc.Header("jabber:client", "", "", "example.net")),
+			nc.S("<auth xmlns='"+nsSASL+"' mechanism='PLAIN'>"+plainAccepted+"</auth>"))
+		res := negotiate(conn, true, xmpp.SASLServer(perm, wrapped(sasl.Plain, &t)))
+		p.srvPanic += bit(t.panicked && res.panicV == "")
+		// initiating side: the second Step panics
+		var tc trace
+		m := scripted("M1", []step{{kind: "m", resp: []byte{1}}, {kind: "p" + k}}, &tc)
+		cc := nc.NewConn(nc.S(nc.Header("jabber:client", "sid1", "example.net", "user@example.net")),
+			nc.S("<stream:features><mechanisms xmlns='"+nsSASL+"'><mechanism>M1</mechanism></mechanisms></stream:features>"),
+			nc.S("<challenge xmlns='"+nsSASL+"'>AQ==</challenge>"))
+		resc := negotiate(cc, false, xmpp.SASL("", "secret", m))
+		p.cliPanic += bit(tc.panicked && resc.panicV == "")
+	}
+	ctx, cancel := context.WithCancel(context.Background())
+	defer cancel()
+	var t trace
+	perm, _ := permFunc("any", &t)
+	conn := nc.NewConn(nc.S(nc.Header("jabber:client", "", "", "example.net")), nc.Chunk{Dyn: func([]byte) []byte {
+		cancel()
+		return []byte("<auth xmlns='" + nsSASL + "' mechanism='PLAIN'>" + plainAccepted + "</auth>")
+	}})
+	res := negotiateCtx(ctx, conn, true, xmpp.SASLServer(perm, wrapped(sasl.Plain, &t)))
+	p.looks = res.called > 0 && res.panicV == "" && errors.Is(res.err, context.Canceled) && res.mask&xmpp.Authn == 0
+	return p
+}
+
 // Run is the C03 runner.
 func Run(r *common.Run) error {
 	// common.NewRand(seed+1) is common.NewRand(seed) shifted by one draw, and r.Case
@@ -1191,6 +1396,10 @@ func Run(r *common.Run) error {
 	if r.Race() {
 		return nil
 	}
+
+	pol := probe()
+	r.Exhaustive = append(r.Exhaustive, fmt.Sprintf("probed: panics recovered by negotiateServer (error,string,other)=%s, by negotiateClient=%s; negotiateServer gives up on a done context=%v", pol.srvPanic, pol.cliPanic, pol.looks))
+	genRoundC(r, rnd, pol)
 
 	// ---- client role, scripted mechanisms: exhaustive over short peer scripts ----
 	depth := r.Pick(3, 4)
@@ -1432,6 +1641,130 @@ func Run(r *common.Run) error {
 	return nil
 }
 
+// genRoundC: Steps and permission callbacks that panic (with an error, a string, another
+// value) at every position, both roles; a negotiation context that is done at every test of
+// the receiving loop.
+func genRoundC(r *common.Run, rnd *common.Rand, pol policies) {
+	m := func(b ...byte) step { return step{kind: "m", resp: b} }
+	uh, ph := hex.EncodeToString([]byte("user")), hex.EncodeToString([]byte("secret"))
+	sdepth := r.Pick(2, 3)
+	// ---- past witnesses (with the policies of the code under test) ----
+	d := step{kind: "d"}
+	for _, peer := range [][]string{{"B"}, {"Rv01"}, {"AMX/v01"}, {"AM1/bad"}} {
+		// the loop was left on a done context and the success tail ran
+		_ = runServer(r, srvCase{mechs: []string{"M1", "M2"}, steps: []step{d}, perm: "any", peer: peer, ctxOn: true, cancel: 0, looks: pol.looks}, "srv-ctx-corpus")
+	}
+	_ = runServer(r, srvCase{mechs: []string{"PLAIN"}, perm: "none", peer: []string{"APLAIN/" + plainPayloads()[0]}, ctxOn: true, cancel: 0, looks: pol.looks}, "srv-ctx-corpus")
+	_ = runServer(r, srvCase{mechs: []string{"M1"}, steps: []step{m(1), m(2), d}, perm: "any", peer: []string{"AM1/v01", "Rv02"}, ctxOn: true, cancel: 1, looks: pol.looks}, "srv-ctx-corpus")
+	// a recovered panic whose value is not an error read as "completed without error"
+	_ = runServer(r, srvCase{mechs: []string{"M1", "M2"}, steps: []step{{kind: "ps"}}, perm: "any", peer: []string{"AM1/-"}, pol: pol.srvPanic}, "srv-panic-corpus")
+	_ = runServer(r, srvCase{mechs: []string{"PLAIN"}, perm: "panic-s", peer: []string{"APLAIN/" + plainPayloads()[0]}, pol: pol.srvPanic}, "srv-panic-corpus")
+	_ = runServer(r, srvCase{mechs: []string{"PLAIN"}, perm: "panic-v", peer: []string{"APLAIN/" + plainPayloads()[0]}, pol: pol.srvPanic}, "srv-panic-corpus")
+	// ---- receiving side: the k-th Step panics ----
+	for _, pk := range []string{"pe", "ps", "pv"} {
+		for si, sc := range [][]step{{{kind: pk}}, {m(0xB1), {kind: pk}}, {m(), m(0xB2), {kind: pk}}} {
+			for n := 0; n <= sdepth; n++ {
+				if n == 3 && si != 2 {
+					continue
+				}
+				enumerate(srvAlphabet, n, func(peer []string) {
+					_ = runServer(r, srvCase{mechs: []string{"M1", "M2"}, steps: sc, perm: "any", peer: peer, pol: pol.srvPanic}, "srv-panic-"+pk)
+				})
+			}
+			_ = runServer(r, srvCase{mechs: []string{"M1"}, steps: sc, perm: "any", peer: []string{"AM1/v01", "Rv02", "R-", "R-"}, pol: pol.srvPanic}, "srv-panic-"+pk)
+		}
+		// ---- receiving side: real PLAIN, the application's permission callback panics ----
+		for _, p := range plainPayloads() {
+			for _, pre := range [][]string{{}, {"AM1/v01"}, {"Rv01"}, {"APLAIN/" + plainPayloads()[1]}} {
+				for _, post := range [][]string{{}, {"Rv01"}} {
+					peer := append(append(append([]string{}, pre...), "APLAIN/"+p), post...)
+					_ = runServer(r, srvCase{mechs: []string{"PLAIN", "M1"}, steps: []step{m(1), {kind: "a"}}, perm: "panic-" + pk[1:], peer: peer, pol: pol.srvPanic}, "srv-plain-panic-"+pk)
+				}
+			}
+		}
+		// ---- initiating side: Start / the Step for the k-th challenge panics ----
+		for _, sc := range [][]step{{{kind: pk}}, {m(0xA1), {kind: pk}}, {m(0xA1), m(0xA2), {kind: pk}}} {
+			for n := 0; n <= 2; n++ {
+				enumerate(cliAlphabet, n, func(peer []string) {
+					_ = runClient(r, cliCase{mechs: []string{"M1"}, adv: []string{"M1"}, steps: sc, peer: peer, pol: pol.cliPanic}, "cli-panic-"+pk)
+				})
+			}
+			for _, peer := range [][]string{{"cv01", "cv02", "s-"}, {"cv01", "cv02", "sv03"}, {"cv01", "sv02"}, {"cv01", "cv02", "cv03", "s-"}} {
+				_ = runClient(r, cliCase{mechs: []string{"M1"}, adv: []string{"M1"}, steps: sc, peer: peer, pol: pol.cliPanic}, "cli-panic-"+pk)
+			}
+		}
+	}
+	// ---- payloads at the boundaries of the two base64 decoders, both roles ----
+	sscripts := srvStepScripts()
+	for _, pl := range []string{"eq", "sh1", "sh", "sh3", "bad", "bad5", "badp"} {
+		for si, sc := range cliStepScripts() {
+			for _, peer := range [][]string{{"c" + pl}, {"c" + pl, "s-"}, {"cv01", "c" + pl}, {"cv01", "c" + pl, "s-"}, {"s" + pl}, {"cv01", "s" + pl}, {"cv01", "cv02", "s" + pl}} {
+				_ = runClient(r, cliCase{mechs: []string{"M1"}, adv: []string{"M1"}, steps: sc, peer: peer}, fmt.Sprintf("cli-b64-%d", si))
+			}
+		}
+		for si, sc := range sscripts {
+			for _, peer := range [][]string{{"AM1/" + pl}, {"AM1/" + pl, "R-"}, {"AM1/v01", "R" + pl}, {"AM1/v01", "R" + pl, "R-"}, {"AM1/" + pl, "R" + pl}} {
+				_ = runServer(r, srvCase{mechs: []string{"M1"}, steps: sc, perm: "any", peer: peer}, fmt.Sprintf("srv-b64-%d", si))
+			}
+		}
+		for _, perm := range []string{"any", "none"} {
+			_ = runServer(r, srvCase{mechs: []string{"PLAIN"}, perm: perm, peer: []string{"APLAIN/" + pl}}, "srv-b64-plain")
+		}
+	}
+	// ---- receiving side: the context is done at the k-th loop test ----
+	for si, sc := range sscripts {
+		for n := 0; n <= sdepth; n++ {
+			enumerate(srvAlphabet, n, func(peer []string) {
+				for k := 0; k <= n; k++ {
+					_ = runServer(r, srvCase{mechs: []string{"M1", "M2"}, steps: sc, perm: "any", peer: peer, ctxOn: true, cancel: k, looks: pol.looks}, fmt.Sprintf("srv-ctx%d", si))
+				}
+			})
+		}
+		for k := 0; k <= 4; k++ {
+			_ = runServer(r, srvCase{mechs: []string{"M1"}, steps: sc, perm: "any", peer: []string{"AM1/v01", "Rv02", "R-", "R-"}, ctxOn: true, cancel: k, looks: pol.looks}, fmt.Sprintf("srv-ctx%d", si))
+		}
+	}
+	for _, perm := range []string{uh + "/" + ph, "none", "any"} {
+		for _, p := range plainPayloads() {
+			for _, pre := range [][]string{{}, {"Rv01"}, {"APLAIN/" + plainPayloads()[1]}} {
+				for k := 0; k <= 1; k++ {
+					peer := append(append([]string{}, pre...), "APLAIN/"+p)
+					_ = runServer(r, srvCase{mechs: []string{"PLAIN", "M1"}, steps: []step{m(1), {kind: "a"}}, perm: perm, peer: peer, ctxOn: true, cancel: k, looks: pol.looks}, "srv-plain-ctx")
+				}
+			}
+		}
+	}
+	// ---- random: longer scripts, panics and done contexts anywhere ----
+	nr := r.Pick(600, 8000)
+	for i := 0; i < nr; i++ {
+		n := 1 + rnd.Intn(5)
+		peer := make([]string, n)
+		for k := range peer {
+			switch {
+			case k == 0 && rnd.Chance(4, 5):
+				peer[k] = []string{"AM1/v01", "AM2/-", "APLAIN/" + plainPayloads()[rnd.Intn(4)]}[rnd.Intn(3)]
+			case rnd.Chance(3, 5):
+				peer[k] = []string{"Rv02", "R-", "Req"}[rnd.Intn(3)]
+			default:
+				peer[k] = srvAlphabet[rnd.Intn(len(srvAlphabet))]
+			}
+		}
+		var sc []step
+		for k, ns := 0, rnd.Intn(4); k < ns; k++ {
+			sc = append(sc, m(byte(0xB0+k)))
+		}
+		if rnd.Chance(1, 2) {
+			sc = append(sc, step{kind: []string{"pe", "ps", "pv"}[rnd.Intn(3)]})
+			perm := []string{"any", "none", uh + "/" + ph, "panic-e", "panic-s", "panic-v"}[rnd.Intn(6)]
+			_ = runServer(r, srvCase{mechs: []string{"M2", "PLAIN", "M1"}, steps: sc, perm: perm, peer: peer, pol: pol.srvPanic}, "srv-panic-random")
+		} else {
+			sc = append(sc, step{kind: []string{"d", "d", "a", "e"}[rnd.Intn(4)]})
+			perm := []string{"any", "none", uh + "/" + ph}[rnd.Intn(3)]
+			_ = runServer(r, srvCase{mechs: []string{"M2", "PLAIN", "M1"}, steps: sc, perm: perm, peer: peer, ctxOn: true, cancel: rnd.Intn(n + 1), looks: pol.looks}, "srv-ctx-random")
+		}
+	}
+}
+
 // corpus: minimal witnesses of past findings (protocol lines without the property id).
 var corpus = []string{
 	// sasl.go client loop: mechanism completes on a <challenge/>, no <success/> ever read
@@ -1483,6 +1816,26 @@ func replayLine(r *common.Run, l string) error {
 			fmt.Sscanf(f[2], "%d", &c.cancel)
 		}
 		return runClient(r, c, "replay")
+	case f[0] == "clip" && len(f) == 6:
+		st, err := steps(f[4])
+		if err != nil {
+			return err
+		}
+		return runClient(r, cliCase{mechs: decNames(f[2]), adv: decNames(f[3]), steps: st, peer: list(f[5]), pol: f[1]}, "replay")
+	case f[0] == "srvp" && len(f) == 6:
+		st, err := steps(f[3])
+		if err != nil {
+			return err
+		}
+		return runServer(r, srvCase{mechs: decNames(f[2]), steps: st, perm: f[4], peer: list(f[5]), pol: f[1]}, "replay")
+	case f[0] == "srvc" && len(f) == 7:
+		st, err := steps(f[4])
+		if err != nil {
+			return err
+		}
+		k := 0
+		fmt.Sscanf(f[2], "%d", &k)
+		return runServer(r, srvCase{mechs: decNames(f[3]), steps: st, perm: f[5], peer: list(f[6]), ctxOn: true, cancel: k, looks: f[1] == "1"}, "replay")
 	case (f[0] == "cli" || f[0] == "clis") && len(f) == 5:
 		st, err := steps(f[3])
 		if err != nil {
